@@ -13,7 +13,10 @@ concurrent suites are built from.
   call with such an index raises.  The calls that follow a raise are those of the code's
   `try/finally` structure (`_add_result_with_semaphore`): nothing after a raise in
   `time/startTest/tags`, `stopTest` after a raising outcome, `release` always.
-* Threads are lists of micro-steps (`acq | rel | call | put`); the global state is the semaphore, the
+* Threads are lists of micro-steps (`acq | rel | call | put`, and `tryAcq` which no method of the class performs); the
+  global state is the semaphore - a COUNTER as in `threading.Semaphore(1)`: a blocking acquire is enabled while it is not 0
+  and decrements it, a non-blocking one never waits, a release increments it whoever calls it and without a bound, so
+  that a program that releases what it does not hold drives it to 2 -, the
   completion queue, the event log of the shared objects and the program counters.  A *schedule* is an
   arbitrary list of thread ids; picking a thread that is finished, unknown or blocked is a no-op.
 
@@ -240,6 +243,8 @@ inductive Step where
   | rel
   | call (c : Call) (raises : Bool)
   | put (x : Item)
+  | tryAcq                 -- `semaphore.acquire(blocking=False)`: never waits.  No method of the class does this; the step
+                           -- exists so that such a program (and what it does to the counter) can be written down and judged
 deriving DecidableEq, Repr, Inhabited
 
 def secSteps (s : Section) : List Step := .acq :: (s.map (fun p => Step.call p.1 p.2) ++ [.rel])
@@ -268,12 +273,27 @@ inductive EvK where
   | acq
   | rel
   | call (c : Call) (raised : Bool)
+  | tryAcq (ok : Bool)     -- a non-blocking acquire and whether it got the semaphore
 deriving DecidableEq, Repr, Inhabited
 
 abbrev Ev := Nat × EvK
 
+/-- what the counter of a semaphore with limit 1 reads after an operation that keeps the discipline (acquire only what is
+free, release only what you hold): 0 after an acquire - also after a non-blocking one, whether it got the semaphore or found it
+taken -, 1 after a release -/
+def EvK.reading? : EvK → Option Nat
+  | .acq => some 0
+  | .tryAcq _ => some 0
+  | .rel => some 1
+  | .call _ _ => none
+
+def readings (log : List Ev) : List Nat := log.filterMap fun e => e.2.reading?
+
 structure St where
-  sem : Option Nat := none          -- holder of the semaphore
+  sem : Option Nat := none          -- the thread whose acquire succeeded last and that has not been followed by a release
+  semv : Nat := 1                   -- the semaphore's COUNTER (`threading.Semaphore(1)`): acquire waits while it is 0 and
+                                    -- decrements it, release increments it - whoever calls it, without an upper bound
+  semLog : List Nat := []           -- the counter after every semaphore operation, in order
   queue : List Item := []
   pcs : List (List Step) := []      -- remaining micro-steps per thread
   log : List Ev := []
@@ -282,7 +302,7 @@ deriving Repr, Inhabited
 /-- thread `i` may take its next step -/
 def enabled (s : St) (i : Nat) : Bool :=
   match s.pcs[i]? with
-  | some (.acq :: _) => s.sem.isNone
+  | some (.acq :: _) => s.semv != 0
   | some (_ :: _) => true
   | _ => false
 
@@ -293,10 +313,16 @@ def stepThread (s : St) (i : Nat) : St :=
   | none => s
   | some [] => s
   | some (.acq :: rest) =>
-      match s.sem with
-      | none => { s with sem := some i, pcs := s.pcs.set i rest, log := s.log ++ [(i, .acq)] }
-      | some _ => s
-  | some (.rel :: rest) => { s with sem := none, pcs := s.pcs.set i rest, log := s.log ++ [(i, .rel)] }
+      if s.semv = 0 then s
+      else { s with sem := some i, semv := s.semv - 1, semLog := s.semLog ++ [s.semv - 1], pcs := s.pcs.set i rest,
+                    log := s.log ++ [(i, .acq)] }
+  | some (.tryAcq :: rest) =>
+      if s.semv = 0 then { s with semLog := s.semLog ++ [0], pcs := s.pcs.set i rest, log := s.log ++ [(i, .tryAcq false)] }
+      else { s with sem := some i, semv := s.semv - 1, semLog := s.semLog ++ [s.semv - 1], pcs := s.pcs.set i rest,
+                    log := s.log ++ [(i, .tryAcq true)] }
+  | some (.rel :: rest) =>
+      { s with sem := none, semv := s.semv + 1, semLog := s.semLog ++ [s.semv + 1], pcs := s.pcs.set i rest,
+               log := s.log ++ [(i, .rel)] }
   | some (.call c r :: rest) => { s with pcs := s.pcs.set i rest, log := s.log ++ [(i, .call c r)] }
   | some (.put x :: rest) => { s with pcs := s.pcs.set i rest, queue := s.queue ++ [x] }
 
@@ -334,6 +360,8 @@ structure Trace where
   log : List Ev               -- semaphore and target events in the order they happened
   exc : List (List Bool)      -- per thread, per operation: did it raise into the caller
   finished : Bool             -- every thread ran to its end (no deadlock)
+  sems : List Nat := []       -- the semaphore's counter, read after every operation on the semaphore, in order
+  sem : Nat := 1              -- … and when everything is over
 deriving Repr, Inhabited
 
 def Thread.secs (t : Thread) : List Section := (sections t.faults t.failfast {} t.ops).1
@@ -346,6 +374,7 @@ def final (i : Input) : St :=
 
 def model (i : Input) : Trace :=
   let s := final i
-  { log := s.log, exc := i.threads.map (fun t => (sections t.faults t.failfast {} t.ops).2), finished := finished s }
+  { log := s.log, exc := i.threads.map (fun t => (sections t.faults t.failfast {} t.ops).2), finished := finished s,
+    sems := s.semLog, sem := s.semv }
 
 end TTV.Conc
